@@ -6,11 +6,16 @@
   (`C09_contains_total_pandas`), hence `detect` never raises on any column for any typeset
   (`C09_detect_total_pandas`), `Generic` contains every column, and the reported type is the root or
   the target of one of the typeset's relations.  `infer` can still raise on the pinned tree through a
-  few transformers (known findings F29–F31, mirrored by the model); the relations proved total below
-  never do.  Which inputs make the remaining ones raise is decided by the correspondence and the
-  totality oracle on the real code (all dtypes incl. those outside the model: arrow, sparse, period …).
+  few transformers (known findings F29–F31, mirrored by the model); `C09_infer_total_pandas` proves
+  that it never does for a column satisfying `Good` (which excludes exactly those inputs through
+  `NoRaise`) and `GuardsOk` (no relation test raises on the input) — both executable (`goodB`,
+  `guardsOkB`) and evaluated by the driver on every abstracted real input; nothing is assumed about the
+  intermediate columns.  Inputs outside the hypotheses, and dtypes outside the model (arrow, sparse,
+  period …), are decided by the correspondence and the totality oracle on the real code.
 -/
 import VProofs.Lemmas.PandasTS
+import VProofs.Obligations.PandasTotal
+import VProofs.Obligations.PandasTypeset
 namespace V.C09
 open V V.Gen V.Pd
 
@@ -80,5 +85,21 @@ theorem C09_witness_F29 :
   constructor
   · rfl
   · simp [objectToBoolean, Column.hasnans, Cell.ofBool, Cell.ofInt, Cell.missing, Cell.blank]
+
+/-- **infer never raises**: for every constructible typeset over the 22 types and every column satisfying the
+(executable) hypotheses `Good` and `GuardsOk`, the traversal the driver evaluates returns normally, and what it returns
+is the sound, convergent answer of C03/C04 -/
+theorem C09_infer_total_pandas (o : ColOracle) (S : List Ty) (nd : S.Nodup) (hg : Ty.Generic ∈ S)
+    (pc : ParentClosedL declared S) (hsub : ∀ t ∈ S, t ∈ completeSet) (c : Column)
+    (hG : Good o c) (hK : GuardsOk o c) :
+    ∃ b, mkTypeset declared isGeneric S = .ok b ∧ ∃ v, traverse (graphOf o b) 64 b.root c () [] = .ok v := by
+  obtain ⟨b, hb, hr, _, ft, _⟩ := built_typeset o S nd hg pc hsub
+  exact ⟨b, hb, infer_total o b ft c hG hK (by rw [hr]; rfl)⟩
+
+/-- the hypotheses are decidable on every abstracted input -/
+theorem C09_hypotheses_executable (o : ColOracle) (c : Column) (h : (goodB o c && guardsOkB o c) = true) :
+    Good o c ∧ GuardsOk o c := by
+  simp only [Bool.and_eq_true] at h
+  exact ⟨goodB_sound o c h.1, guardsOkB_sound o c h.2⟩
 
 end V.C09
